@@ -3,7 +3,7 @@
    Link.v (leaf functions regenerated from the source = model leafs).
    to_double (strtod on the accumulated number text), print16 (the 16-digit printer) and to_float
    are parameters of the model: they appear as universally quantified arguments. *)
-From CppcmsV Require Import Base.Tac Base.CSem Base.Sweep C11.Defs C11.Proofs1 C11.Proofs2 C11.Link gen.Gen_json gen.Gen_json_esc.
+From CppcmsV Require Import Base.Tac Base.CSem Base.Sweep C11.Defs C11.Proofs1 C11.Proofs2 C11.Proofs3 C11.Proofs4 C11.Proofs5 C11.Link gen.Gen_json gen.Gen_json_esc.
 Local Open Scope N_scope.
 
 (* 1. parsing any byte string terminates: the fuel S (length s) of the loop is never exhausted *)
@@ -61,6 +61,46 @@ Example parse_sound_nonvacuous : forall to_double,
   parse to_double true [34;92;117;100;56;48;48;120;34] = PFail 1.
 Proof. intros. repeat split; vm_compute; reflexivity. Qed.
 
+(* 3. every text of the RFC 8259 grammar `Val n doc v` (Proofs3.v: insignificant whitespace anywhere the RFC
+      allows it, strings with raw bytes >= 0x20, the eight short escapes, \uXXXX and paired surrogate escapes whose
+      decoded content is valid UTF-8, the full number grammar with a lexeme strtod converts to a finite b, arrays,
+      objects with pairwise different keys, nesting budget n) with n <= max_depth, surrounded by whitespace, is
+      accepted, and the result is exactly the value the grammar assigns (objects as the sorted map) *)
+Theorem rfc8259_accepted : forall to_double n doc v w1 w2,
+  Val to_double n doc v -> (n <= max_depth)%nat -> ws w1 -> ws w2 ->
+  parse to_double true (w1 ++ doc ++ w2) = POk v [].
+Proof. exact Proofs3.rfc_accepted. Qed.
+Print Assumptions rfc8259_accepted.
+Theorem rfc8259_accepted_prefix_mode : forall to_double n doc v w1 rest,
+  Val to_double n doc v -> (n <= max_depth)%nat -> ws w1 -> stops rest ->
+  parse to_double false (w1 ++ doc ++ rest) = POk v rest.
+Proof. exact Proofs3.rfc_accepted_prefix. Qed.
+Print Assumptions rfc8259_accepted_prefix_mode.
+Theorem string_body_decoded : forall b s, StrBody b s -> forall r, scan_string None (b ++ 34 :: r) = Some (s, r).
+Proof. exact scan_string_body. Qed.
+Print Assumptions string_body_decoded.
+Theorem number_lexeme_scanned : forall neg i f e rest, int_ok i -> frac_ok f -> exp_ok e -> stops rest ->
+  scan_number (num_text neg i f e ++ rest) = (num_norm neg i f e, rest).
+Proof. exact scan_number_ok. Qed.
+Print Assumptions number_lexeme_scanned.
+(* [null , "a\u00e9"] and -12.5E+3 are texts of the grammar *)
+Example rfc8259_nonvacuous : forall to_double,
+  Val to_double 1 [91;110;117;108;108;32;44;32;34;97;92;117;48;48;101;57;34;93] (JArr [JNull; JStr [97;195;169]]) /\
+  (forall b, to_double [45;49;50;46;53;101;43;51] = Some b -> Val to_double 0 [45;49;50;46;53;69;43;51] (JNum b)).
+Proof.
+  intros td. split.
+  - apply (V_arr td 0 ([] ++ lit_null ++ [32] ++ 44 :: ([32] ++ (34 :: [97;92;117;48;48;101;57] ++ [34]) ++ [])) [JNull; JStr [97;195;169]]).
+    apply E_cons; [constructor|apply V_null|repeat constructor|].
+    apply E_one; [repeat constructor| |constructor].
+    apply (V_str td 0 [97;92;117;48;48;101;57] [97;195;169]); [|reflexivity].
+    apply SB_raw; [lia|lia|lia|]. apply (SB_u 48 48 101 57 [] []); [reflexivity|reflexivity|constructor].
+  - intros b Hb. apply (V_num td 0 true [49;50] [46;53] (Some (69, [43], [51])) b).
+    + right. exists 49, [50]. repeat split; [lia|repeat constructor].
+    + right. exists 53, []. split; [reflexivity|repeat constructor].
+    + cbn. repeat split; auto; [repeat constructor|discriminate].
+    + exact Hb.
+Qed.
+
 (* 4. a failed load leaves the target untouched *)
 Theorem fail_keeps_target : forall to_double target full s t,
   load to_double target full s = (false, t) -> t = target.
@@ -70,6 +110,74 @@ Example fail_keeps_target_nonvacuous : forall to_double,
   load to_double (JStr [120]) true [91; 34; 34; 44] = (false, JStr [120]) /\
   load to_double (JStr [120]) true [91; 93] = (true, JArr []).
 Proof. intros. split; vm_compute; reflexivity. Qed.
+
+(* 5. serialization round-trips.  wgood v (Proofs4.v): no undefined member, every string and key valid UTF-8, objects
+      sorted by key (a std::map), and for every number x of v: print16 x is an RFC 8259 number lexeme that strtod
+      converts to the finite double rt x.  Then for every layout (tabs = None is compact, Some n readable at
+      indentation n; save uses None and Some 0) the written text parses back to v with every number x replaced by
+      rt x; if moreover print16 (rt x) reads back as rt x itself (wgood2, Proofs5.v) every later round is exact, whatever
+      the layouts.  The writer output lies in the RFC grammar of theorem 3 (write_in_rfc_grammar). *)
+Theorem write_in_rfc_grammar : forall to_double print16 rt v, wgood to_double print16 rt v ->
+  forall tabs n, (depth v <= n)%nat ->
+  exists d w, write print16 tabs v = Some (d ++ w) /\ ws w /\ Val to_double n d (map_nums rt v).
+Proof. exact Proofs4.write_in_grammar. Qed.
+Print Assumptions write_in_rfc_grammar.
+Theorem write_parse : forall to_double print16 rt v tabs,
+  wgood to_double print16 rt v -> (depth v <= max_depth)%nat ->
+  exists txt, write print16 tabs v = Some txt /\ parse to_double true txt = POk (map_nums rt v) [].
+Proof. exact Proofs4.write_parse. Qed.
+Print Assumptions write_parse.
+Theorem save_load_roundtrip : forall to_double print16 rt v readable,
+  wgood to_double print16 rt v -> (depth v <= max_depth)%nat ->
+  exists txt, save print16 readable v = Some txt /\
+    forall target, load to_double target true txt = (true, map_nums rt v).
+Proof. exact Proofs4.save_load. Qed.
+Print Assumptions save_load_roundtrip.
+Theorem write_parse_second_round_exact : forall to_double print16 rt v tabs1 tabs2,
+  wgood2 to_double print16 rt v -> (depth v <= max_depth)%nat ->
+  exists txt1 txt2,
+    write print16 tabs1 v = Some txt1 /\ parse to_double true txt1 = POk (map_nums rt v) [] /\
+    write print16 tabs2 (map_nums rt v) = Some txt2 /\ parse to_double true txt2 = POk (map_nums rt v) [].
+Proof. exact Proofs5.second_round_exact. Qed.
+Print Assumptions write_parse_second_round_exact.
+Theorem wgood_from_predicates : forall to_double print16 rt (p : N -> bool),
+  (forall x, p x = true -> num_ok to_double print16 rt x) ->
+  forall v, no_undef v = true -> strings_ok utf8_valid v = true -> maps_ok v = true -> nums_ok p v = true ->
+  wgood to_double print16 rt v.
+Proof. exact Proofs4.wgood_of_bools. Qed.
+Print Assumptions wgood_from_predicates.
+Theorem escaped_string_denotes_itself : forall s, StrBody (flat_map esc1 s) s.
+Proof. exact esc_body. Qed.
+Print Assumptions escaped_string_denotes_itself.
+(* the two classes on which the round trip fails on the code as it is (known findings, replayed by the check):
+   a string that is not valid UTF-8 is written verbatim and rejected by the reader; a finite number whose
+   printed decimal strtod does not convert to a finite double is rejected by the reader *)
+Theorem write_parse_refuted_non_utf8 :
+  exists v, no_undef v = true /\ (depth v <= max_depth)%nat /\
+    forall to_double print16 tabs, exists txt, write print16 tabs v = Some txt /\ parse to_double true txt = PFail 1.
+Proof. exact Proofs5.write_parse_refuted_non_utf8. Qed.
+Print Assumptions write_parse_refuted_non_utf8.
+Theorem printed_number_overflow_rejected : forall to_double neg i f e, int_ok i -> frac_ok f -> exp_ok e ->
+  to_double (num_norm neg i f e) = None -> parse to_double true (num_text neg i f e) = PFail 1.
+Proof. exact Proofs5.number_overflow_rejected. Qed.
+Print Assumptions printed_number_overflow_rejected.
+(* {"a":[null,"e-acute LF"],"b":true} is wgood whatever the conversions are, [x,"e-acute"] when x prints as 1.5 *)
+Example write_parse_nonvacuous : forall to_double print16 rt,
+  wgood to_double print16 rt (JObj [([97], JArr [JNull; JStr [195;169;10]]); ([98], JBool true)]) /\
+  save print16 false (JObj [([97], JArr [JNull; JStr [195;169;10]]); ([98], JBool true)])
+    = Some [123;34;97;34;58;91;110;117;108;108;44;34;195;169;92;110;34;93;44;34;98;34;58;116;114;117;101;125] /\
+  parse to_double true [123;34;97;34;58;91;110;117;108;108;44;34;195;169;92;110;34;93;44;34;98;34;58;116;114;117;101;125]
+    = POk (JObj [([97], JArr [JNull; JStr [195;169;10]]); ([98], JBool true)]) [] /\
+  (forall x, print16 x = [49;46;53] -> to_double [49;46;53] = Some (rt x) ->
+     wgood to_double print16 rt (JArr [JNum x; JStr [195;169]])).
+Proof.
+  intros td p16 rt. split; [|split; [reflexivity|split; [vm_compute; reflexivity|]]].
+  - apply G_obj; [reflexivity|]. repeat constructor.
+  - intros x Hp Ht. apply G_arr. constructor; [|repeat constructor].
+    apply G_num. exists false, [49], [46;53], None. repeat split; try assumption.
+    + right. exists 49, []. repeat split; [lia|constructor].
+    + right. exists 53, []. split; [reflexivity|repeat constructor].
+Qed.
 
 (* 7. typed extraction returns the exact number or fails *)
 Theorem get_int_exact : forall lo hi b n,
